@@ -307,6 +307,9 @@ void OPN2::noteOn(size_t c, double tone)
     if(hertz < 0) // Avoid infinite loop
         return;
 
+    if(!(hertz <= 131071.0)) // Out of the range above (or infinite: the loops below would never end)
+        hertz = 131071.0;
+
     double coef;
     switch(m_chipFamily)
     {
